@@ -6,7 +6,7 @@ import random
 
 import aioftp
 
-from harness import judge, simnet, vloop
+from harness import judge, simnet, vloop, watchdog
 
 UNIX = ["-rw-r--r--", "1", "owner", "group", "1234", "Jan 01 12:30", "name.txt"]
 UNIXD = ["drwxr-xr-x", "2", "o", "g", "0", "Dec 31  2001", "a dir"]
@@ -56,8 +56,11 @@ def list_lines(rng, tier):
 
 
 def classify(fn, arg, typed, check_name=True):
+    if watchdog.POISONED[0]:
+        return None  # an earlier call blocked the thread (and whatever it holds is still held): nothing more can be observed here
     try:
-        r = fn(arg)
+        with watchdog.guard(30):
+            r = fn(arg)
         if typed is typed_list and typed(r) and check_name:
             # nothing invented: the reported name is text of the line itself
             try:
@@ -71,6 +74,8 @@ def classify(fn, arg, typed, check_name=True):
         return "ValueError"
     except Exception:
         return "Exception"
+    except watchdog.HardHang:
+        return "hang"
     except BaseException:
         return "BaseException"
     return "typed" if typed(r) else "illtyped"
@@ -161,12 +166,15 @@ def run_lister(listings, use_mlsd, recursive, budget=20000, pasv_reply=None):
             return res
 
         try:
-            res = loop.run_task(main(), budget=budget)
+            if watchdog.POISONED[0]:
+                raise vloop.Hang("skipped")
+            with watchdog.guard(60):
+                res = loop.run_task(main(), budget=budget)
             ok = isinstance(res, list) and all(isinstance(p, pathlib.PurePosixPath) and isinstance(i, dict) for p, i in res)
             rec["outcome"] = "typed" if ok else "illtyped"
             rec["entries_returned"] = len(res)
-        except (vloop.Hang, vloop.Budget):
-            rec["outcome"] = "hang"
+        except (vloop.Hang, vloop.Budget, watchdog.HardHang) as ex:
+            rec["outcome"] = "skipped" if str(ex) == "skipped" else "hang"
         except asyncio.CancelledError:
             rec["outcome"] = "BaseException"
         except Exception:
@@ -231,6 +239,8 @@ def run_into(chk, tier, seed):
         rec = run_lister({"top": b""}, True, False, pasv_reply=reply)
         rec["desc"] = ["pasv-reply", 0, reply]
         cases.append(rec)
+    # calls that could not be made because an earlier one blocked the thread for good are left out (not judged)
+    cases = [c for c in cases if c["outcome"] not in (None, "skipped")]
     chk.cov["evaluations"] += len(cases)
     bad = judge.judge("ParserContract", [{k: v for k, v in c.items() if k != "desc"} for c in cases], chk)
     for i in sorted(bad):
